@@ -130,7 +130,7 @@ Judged(line) ==
   [C01 |-> C01, C02 |-> C02, C03 |-> C03, C04 |-> C04, C05 |-> C05,
    C06 |-> C06once /\ C06nopanic /\ C06wellformed /\ C06codes(line),
    C07 |-> C07, C08 |-> C08, C11 |-> C11, C12 |-> C12 /\ C12bytes(line),
-   C13 |-> C13 /\ C13payload(line), C10 |-> C10hint /\ C10payee(line), AUDIT |-> Audit, C15 |-> C15, C16 |-> C16, PAYSHAPE |-> PayShape(line)]
+   C13 |-> C13 /\ C13payload(line), C10 |-> C10hint /\ C10payee(line) /\ C13, AUDIT |-> Audit, C15 |-> C15, C16 |-> C16, PAYSHAPE |-> PayShape(line)]
 
 Violated(line) == LET j == Judged(line) IN {p \in DOMAIN j : ~j[p]}
 
